@@ -44,7 +44,7 @@ EXC = {"ValueError": ValueError, "KeyError": KeyError, "StopIteration": StopIter
        "SystemExit": SystemExit, "GeneratorExit": GeneratorExit, "SimBase": SimBase}
 
 DOMAIN = {
-    "default_varname": ["q", "x", "zz"],
+    "default_varname": ["q", "x", "p"],  # one character: longer prefixes make numpoly's name order follow str hashing (DESIGN.md S6)
     "display_graded": [True, False],
     "display_reverse": [True, False],
     "display_inverse": [True, False],
